@@ -288,6 +288,20 @@ claim(
     "DESIGN.md §2 C07",
 )
 
+claim(
+    "C15",
+    "def-use shape analysis of the three returned parts (plain slices at token boundaries of the same string)",
+    "Decides a necessary part of the exact-concatenation clause: in "
+    "parse_docstring_into_header_args_footer the header, args/returns and footer returned for one docstring "
+    "must each be an untransformed slice of it, at boundaries produced by _get_token_start_idx / "
+    "_get_token_last_idx of that same string; any text transformation applied to a part before the return "
+    "(indent, strip, replace ...) breaks header + args + footer == original.",
+    "NOT decided: that the token indices land on the right lines for every combination of blank lines and "
+    "indentation; that header prose survives a style conversion and is not absorbed into a type/default "
+    "(value level).",
+    "DESIGN.md §2 C15",
+)
+
 
 def main():
     """write MANIFEST.json"""
